@@ -46,11 +46,14 @@ NoNode == 0
 (*   acc    callbacks accumulated by the slices of an unfinished continue  *)
 (*   memo   results of pure function evaluations made at this position     *)
 (*   multi  the instance has ever had a second flow                        *)
+(*   lost   the position is not tracked (after an operation this           *)
+(*          specification says nothing about); only reset and load         *)
+(*          re-establish it                                                *)
 (***************************************************************************)
 Fresh(root, froot) ==
   [ pos |-> (DefaultFlow :> root), cur |-> DefaultFlow, pend |-> FALSE, home |-> root,
     froot |-> froot, last |-> NObs[root], acc |-> <<>>, memo |-> <<>>, multi |-> FALSE,
-    dead |-> FALSE ]
+    lost |-> FALSE ]
 
 Here(s) == s.pos[s.cur]
 Alive(s) == DOMAIN s.pos
@@ -87,13 +90,17 @@ SaveSlot(s, saveId) == [pos |-> s.pos, cur |-> s.cur, multi |-> s.multi, save |-
 
 \* loading: jump to the saved position in any instance of the same program (C02)
 LoadF(s, slot) ==
-  [s EXCEPT !.pos = slot.pos, !.cur = slot.cur, !.multi = slot.multi, !.pend = FALSE,
+  [s EXCEPT !.pos = slot.pos, !.cur = slot.cur, !.multi = slot.multi, !.pend = FALSE, !.lost = FALSE,
             !.last = NObs[slot.pos[slot.cur]], !.memo = <<>>, !.acc = <<>>]
 
 \* reset: back to the home position, a single default flow; registrations stay (C17)
 ResetF(s) ==
-  [s EXCEPT !.pos = (DefaultFlow :> s.home), !.cur = DefaultFlow, !.pend = FALSE,
+  [s EXCEPT !.pos = (DefaultFlow :> s.home), !.cur = DefaultFlow, !.pend = FALSE, !.lost = FALSE,
             !.last = NObs[s.home], !.memo = <<>>, !.acc = <<>>, !.multi = FALSE]
+
+\* an operation about which this specification says nothing (e.g. a jump to a knot): the
+\* position is lost; reset and load must still work from wherever the story is now
+FreeF(s, o) == [s EXCEPT !.lost = TRUE, !.last = o, !.memo = <<>>, !.acc = <<>>]
 
 \* evaluating an Ink function from the host: the story does not move (C16)
 EvalF(s, key, val) ==
